@@ -18,7 +18,7 @@ def _load_contracts():
 
 
 def _worker(task):
-    qualname, shard, nshards, timeout_ms, seed, want_canary = task
+    qualname, shard, nshards, timeout_ms, seed, want_canary, only_names = task
     t0 = time.time()
     out = dict(function=qualname, shard=shard, results=[], error=None, unsupported=None)
     try:
@@ -52,6 +52,8 @@ def _worker(task):
         for i, ob in enumerate(obs):
             if i % nshards != shard:
                 continue
+            if only_names is not None and ob.name not in only_names:
+                continue
             r = discharge(ob, timeout_ms=timeout_ms, seed=seed, strings=strings,
                           on_model=lambda m: conc_env(m, ex.old_ctx._env))
             r["function"] = qualname
@@ -67,14 +69,14 @@ def _worker(task):
     return out
 
 
-def run_cone(functions, timeout_ms=10000, seed=0, shards=None, procs=16, want_canary=True):
+def run_cone(functions, timeout_ms=10000, seed=0, shards=None, procs=16, want_canary=True, only_names=None):
     """-> dict function -> merged record"""
     shards = shards or {}
     tasks = []
     for q in functions:
         k = shards.get(q, 1)
         for i in range(k):
-            tasks.append((q, i, k, timeout_ms, seed, want_canary))
+            tasks.append((q, i, k, timeout_ms, seed, want_canary, only_names))
     ctx = mp.get_context("fork")
     with ctx.Pool(min(procs, max(1, len(tasks)))) as pool:
         outs = pool.map(_worker, tasks, chunksize=1)
